@@ -370,10 +370,25 @@ def x7_shims(text, log):
         return "vx_splitn2(%s, %s)" % (m.group(1), m.group(2))
     text = re.sub(r"\b([a-z_][a-z0-9_]*)\.splitn\(2, ('.')\)\.collect\(\)", splitn, text)
 
+    def btit(m):
+        log.add("X7:vx_btree_into_iter")
+        return "vx_btree_into_iter(%s)" % m.group(1)
+    text = re.sub(r"\b(property_offsets)\.into_iter\(\)", btit, text)
+
     def u16(m):
         log.add("X7:vx_utf16_count")
         return "vx_utf16_count(&%s)" % m.group(1)
     text = re.sub(r"\b([a-z_][a-z0-9_]*(?:\([^()]*\))?)\.encode_utf16\(\)\.count\(\)", u16, text)
+
+    def dispm(m):
+        log.add("X7:vx_display(method form)")
+        return "vx_display(%s, %s)" % (m.group(1), m.group(2))
+    text = re.sub(r"\b(value)\.fmt\((formatter)\)", dispm, text)
+
+    def disps(m):
+        log.add("X7:vx_display_string")
+        return "vx_display_string(%s, %s)" % (m.group(1), m.group(2))
+    text = re.sub(r"\b(table_name)\.fmt\((formatter)\)", disps, text)
 
     def disp(m):
         log.add("X7:vx_display")
